@@ -25,8 +25,25 @@ def sym_finder():
 
 
 class Sky:
-    def __init__(self, e):
+    def __init__(self, e, narrow=False):
         self.e = e
+        self.narrow = narrow          # went through a cast to a float type narrower than float64
+
+
+class SkyArr(real_np.ndarray):
+    """object array of Sky values: a cast to a narrower float type is recorded on the values instead of failing"""
+    def astype(self, dtype, *a, **k):
+        try:
+            dt = real_np.dtype(dtype)
+        except TypeError:
+            return self
+        if dt.kind == 'f' and dt.itemsize < 8:
+            out = real_np.empty(self.shape, dtype=object).view(SkyArr)
+            for idx in real_np.ndindex(self.shape):
+                v = real_np.ndarray.__getitem__(self, idx)
+                real_np.ndarray.__setitem__(out, idx, Sky(v.e, True) if isinstance(v, Sky) else v)
+            return out
+        return self
 
 
 class UFWcs:
@@ -46,7 +63,7 @@ class UFWcs:
             self.calls.append((X, Y))
             out[n, 0] = Sky(Wra(X, Y))
             out[n, 1] = Sky(Wdec(X, Y))
-        return out
+        return out.view(SkyArr)
     all_pix2world = wcs_pix2world
 
 
